@@ -1,15 +1,30 @@
 """C13 — HMAC equals RFC 2104 for every hash of the library, key length and message.
-Aggregated from parts (tools/props/parts/c13_*.py): MD/SHA family + toy hash here; other hash families add their part."""
+Aggregated from parts (tools/props/parts/c13_*.py): MD/SHA family + toy hash; HMAC over the BLAKE-n objects; other hash
+families add their part."""
+import importlib, os
 from props.common import aggregate
-from props.parts import c13_mdsha
+_here = os.path.join(os.path.dirname(__file__), 'parts')
+PARTS = [importlib.import_module('props.parts.' + n) for n in ('c13_mdsha', 'c13_blake')
+         if os.path.exists(os.path.join(_here, n + '.py'))]
+_blake = any(p.__name__.endswith('c13_blake') for p in PARTS)
 
 ID = 'C13'
-aggregate(globals(), [c13_mdsha])
+aggregate(globals(), PARTS)
 RULE = ('op lines `hmac <alg> <key> <msg>` for |K| in 0..3 blocks around digest size, block-1, block, block+1 and multiples; `hmacseq` key '
-        'sequences on one object; `hmacgen` the HMAC class over a toy hash for block sizes 8..1024 bits; distinct lines; non-trivial = a MAC was returned')
-LEVEL_TEXT = ('Lean 4 theorem hmac_refines, generic in the hash function: Model.Hmac (the hand-written mirror of crysp/hmac.py) equals RFC 2104 for every '
-              'hash, block size, key and message, with the three key-length branches explicit, plus setkey_replaces; the model is tied to the code by a '
-              'correspondence stream over every MD/SHA object of the library and a toy hash, which also compares the real code with Python\'s hmac module.')
+        'sequences on one object; `hmacgen` the HMAC class over a toy hash for block sizes 8..1024 bits'
+        + ('; `bhmac`/`bhmac.s`/`bhmacseq` the same grid over Blake(224/256/384/512) and the module singletons, message lengths around '
+           'BLAKE\'s padding spill' if _blake else '')
+        + '; distinct lines; non-trivial = a MAC was returned')
+LEVEL_TEXT = ('Parts present: ' + ', '.join(p.__name__.split('.')[-1] for p in PARTS) + '. '
+              'Lean 4 theorem hmac_refines, generic in the hash function: Model.Hmac (the hand-written mirror of crysp/hmac.py) equals RFC 2104 for every '
+              'hash, block size, key and message, with the three key-length branches explicit, plus setkey_replaces; instantiated for the ten MD/SHA objects '
+              '(hmac_refines_library, over C01\'s hash_refines)'
+              + (' and for the four BLAKE objects (Proofs.C13_Blake.hmac_refines_blake, over C11\'s blake_refines)' if _blake else '')
+              + '; the model is tied to the code by a correspondence stream over every MD/SHA'
+              + ('/BLAKE' if _blake else '') + ' object of the library and a toy hash, which also compares the real code with Python\'s hmac module'
+              + (' (MD/SHA) and with RFC 2104 over an independent BLAKE reference (BLAKE)' if _blake else '') + '.')
 LEVEL_NOTE = ('Trusted: Lean kernel; axioms ⊆ {propext, Classical.choice, Quot.sound}; lean/Spec/Hmac.lean as the rendering of RFC 2104; runcheck.py/props. '
-              'HMAC over BLAKE-n is covered by the generic theorem; its correspondence lines belong to the BLAKE part. Theorem list: evidence/C13.json.')
+              + ('HMAC over BLAKE-n: Proofs.C13_Blake + the bhmac lines of the stream. ' if _blake else
+                 'HMAC over BLAKE-n is covered by the generic theorem only; its part is absent. ')
+              + 'Theorem list: evidence/C13.json.')
 TECHNIQUE = 'Lean 4 proof (generic in the hash function; case split on the key length) + correspondence check'
